@@ -179,12 +179,16 @@ type tracer struct {
 	nreq int
 }
 
+// sampleBug is the outcome of probe(): 1 if Sample(1) of a 5-element set returns more than one element. It is
+// logged in every reset record so that known finding F25 is matched only where its root cause was observed.
+var sampleBug int
+
 func newTracer(c *eng.Ctx, l *lab, t int, big int, fam string) *tracer {
 	tr := &tracer{c: c, l: l, list: &healthList{cur: stringset.New(), l: l}}
 	tr.cc = tagclient.NewClusterClient(tr.list, nil)
 	tr.prov = blobclient.NewProvider()
 	tr.res = blobclient.NewClientResolver(tr.prov, tr.list)
-	c.W.Reset(t, map[string]any{"big": big, "fam": fam})
+	c.W.Reset(t, map[string]any{"big": big, "fam": fam, "samplebug": sampleBug})
 	return tr
 }
 
@@ -328,6 +332,10 @@ func run(c *eng.Ctx) error {
 	defer l.close()
 	http.DefaultTransport.(*http.Transport).DisableKeepAlives = true
 	sampleOK := probe()
+	sampleBug = 1
+	if sampleOK {
+		sampleBug = 0
+	}
 
 	// family E: one trace per (size, kind): all fault assignments, each tried `rep` times (the order in which the real
 	// code tries hosts is random)
